@@ -5,6 +5,7 @@ token of a frame is the grapheme of one of its cells (or the blank).
 -/
 import VaxisModel.Model.C12Compose
 import VaxisModel.Lemmas.RenderDisplay
+import VaxisModel.Spec.DisplayCluster
 
 namespace VaxisModel.Lemmas.C12Cluster
 open VaxisModel.Model.Render VaxisModel.Model.C12Compose VaxisModel.Lemmas.RenderToks
@@ -49,6 +50,49 @@ theorem opsOfToksM_eq (merges : String → String → Bool) (cat : String → St
     opsOfToksM merges cat dec tw toks = opsOfToks dec tw toks := by
   unfold opsOfToksM clusterToks
   rw [(clusterGo_id merges cat toks h).1]
+
+/-! ### the tight form: only ADJACENT text writes matter
+
+`Spec.DisplayCluster.adjOk merges p toks`: no raw text write of `toks` directly follows a raw text write
+it merges with (`p` = the grapheme directly before the list, if any). C01 proves it of every frame whose
+horizontally neighbouring shown cells do not join (`Props.C01Cluster.render_no_adjacent_join_tight`). -/
+
+theorem clusterGo_adj (merges : String → String → Bool) (cat : String → String → String) :
+    ∀ (l : List Tok),
+      (VaxisModel.Spec.Display.adjOk merges none l = true → clusterGo merges cat none l = l) ∧
+      ∀ p, VaxisModel.Spec.Display.adjOk merges (some p) l = true → clusterGo merges cat (some p) l = Tok.text p :: l := by
+  intro l
+  induction l with
+  | nil => exact ⟨fun _ => rfl, fun _ _ => rfl⟩
+  | cons t rest ih =>
+    obtain ⟨ih1, ih2⟩ := ih
+    cases t with
+    | text a =>
+      refine ⟨?_, ?_⟩
+      · intro h
+        simp only [VaxisModel.Spec.Display.adjOk, Bool.true_and] at h
+        simp only [clusterGo]
+        exact ih2 a h
+      · intro p h
+        simp only [VaxisModel.Spec.Display.adjOk, Bool.and_eq_true, Bool.not_eq_true'] at h
+        simp only [clusterGo, h.1, Bool.false_eq_true, if_false]
+        rw [ih2 a h.2]
+    | cup r c => exact ⟨fun h => by simp only [clusterGo, ih1 h], fun p h => by simp only [clusterGo, ih1 h]⟩
+    | sgr ps => exact ⟨fun h => by simp only [clusterGo, ih1 h], fun p h => by simp only [clusterGo, ih1 h]⟩
+    | osc8 a b => exact ⟨fun h => by simp only [clusterGo, ih1 h], fun p h => by simp only [clusterGo, ih1 h]⟩
+    | textW w g => exact ⟨fun h => by simp only [clusterGo, ih1 h], fun p h => by simp only [clusterGo, ih1 h]⟩
+    | decset n => exact ⟨fun h => by simp only [clusterGo, ih1 h], fun p h => by simp only [clusterGo, ih1 h]⟩
+    | decrst n => exact ⟨fun h => by simp only [clusterGo, ih1 h], fun p h => by simp only [clusterGo, ih1 h]⟩
+    | cursorStyle n => exact ⟨fun h => by simp only [clusterGo, ih1 h], fun p h => by simp only [clusterGo, ih1 h]⟩
+    | pointer sh => exact ⟨fun h => by simp only [clusterGo, ih1 h], fun p h => by simp only [clusterGo, ih1 h]⟩
+    | other r => exact ⟨fun h => by simp only [clusterGo, ih1 h], fun p h => by simp only [clusterGo, ih1 h]⟩
+
+/-- No text write directly follows one it merges with ⇒ the parser delivers one `print` per text write. -/
+theorem opsOfToksM_eq_adj (merges : String → String → Bool) (cat : String → String → String) (dec : String → VaxisModel.Model.Emu.G)
+    (tw : String → Nat) (toks : List Tok) (h : VaxisModel.Spec.Display.adjOk merges none toks = true) :
+    opsOfToksM merges cat dec tw toks = opsOfToks dec tw toks := by
+  unfold opsOfToksM clusterToks
+  rw [(clusterGo_adj merges cat toks).1 h]
 
 /-! ### the text tokens of a frame are cell graphemes -/
 
